@@ -42,7 +42,7 @@ func run(c *wk.Ctx) {
 
 func runCase(c *wk.Ctx, i int) {
 	r := c.Rand(i)
-	os := model.RandomOptions(r, model.OptConstraints{})
+	os := model.RandomOptions(r, model.OptConstraints{NonInjective: true})
 	nkeys := 30 + r.Intn(500)
 	nops := 200 + r.Intn(c.Pick(1200, 2500))
 	c.Begin(i, fmt.Sprintf("opts=%v nkeys=%d nops=%d", os.Desc, nkeys, nops))
